@@ -17,6 +17,9 @@ struct Pool {
     small: Vec<Pdu>,
     mid: Pdu,
     toolong: Pdu,
+    /// too long only because of the label: 65530 + 2 + 6 > 65535, 65531 + 2 + 3 > 65535; fits after a re-use substitution
+    almost6: Pdu,
+    almost3: Pdu,
 }
 
 fn feed_tx(out: &mut Out, rx: &mut Rx<DefaultCrc>, t: &TxOut) {
@@ -230,6 +233,8 @@ pub fn run(out: &mut Out, seed: u64, thorough: bool, scn: Option<&str>) {
         small: (0..4).map(|i| Pdu::random(out, 3 + i * 5, &mut rng)).collect(),
         mid: Pdu::random(out, 50, &mut rng),
         toolong: Pdu::random(out, 65534, &mut rng),
+        almost6: Pdu::random(out, 65530, &mut rng),
+        almost3: Pdu::random(out, 65531, &mut rng),
     };
     if let Some(path) = scn {
         run_scn(out, &mut rng, &pool, path);
@@ -280,6 +285,38 @@ pub fn run(out: &mut Out, seed: u64, thorough: bool, scn: Option<&str>) {
                 }
                 rx.ev_drain(out);
             }
+        }
+    }
+    // label A goes out; a call with another label B fails - for every reason a call can fail, through encap and
+    // through encap_ext, including "too long only because of the label bytes"; then B, B, A are sent.  The
+    // failed call emitted nothing: the first B must carry its label in full
+    for (b, almost) in [(LB6, 0usize), (LA3, 1)] {
+        for kind in 0..11usize {
+            let mgr = TableMgr { known: vec![] };
+            let mut rx = mk_rx(out, "labels", "a_failB_b", 3, 64, 3, mgr, true);
+            let mut enc = Encapsulator::new(DefaultCrc {});
+            let exts = [ExtSpec { id: 0x0211, data: vec![1, 2] }];
+            let t = ev_encap(out, &mut enc, &pool.small[0], 1, LA6, 0x0800, 64, None, None);
+            feed_tx(out, &mut rx, &t);
+            let big = if almost == 0 { &pool.almost6 } else { &pool.almost3 };
+            match kind {
+                0 => ev_encap(out, &mut enc, &pool.small[1], 2, b, 0x0800, 3, None, None),
+                1 => ev_encap(out, &mut enc, &pool.toolong, 2, b, 0x0800, 100, None, None),
+                2 => ev_encap(out, &mut enc, big, 2, b, 0x0800, 100, None, None),
+                3 => ev_encap(out, &mut enc, big, 2, b, 0x0800, 4097, None, None),
+                4 => ev_encap(out, &mut enc, &pool.small[1], 2, b, 0x0300, 64, None, None),
+                5 => ev_encap(out, &mut enc, &pool.small[1], 2, b, 0x0800, 9, Some(&exts), None),
+                6 => ev_encap(out, &mut enc, &pool.toolong, 2, b, 0x0800, 100, Some(&exts), None),
+                7 => ev_encap(out, &mut enc, big, 2, b, 0x0800, 100, Some(&exts), None),
+                8 => ev_encap(out, &mut enc, big, 2, b, 0x0800, 4097, Some(&exts), None),
+                9 => ev_encap(out, &mut enc, &pool.small[1], 2, b, 0x0041, 64, Some(&exts), None),
+                _ => ev_encap(out, &mut enc, &pool.small[1], 2, b, 0x0800, 64, Some(&[]), None),
+            };
+            for lab in [b, b, LA6, LA6] {
+                let t = ev_encap(out, &mut enc, &pool.small[2], 1, lab, 0x0800, 64, None, None);
+                feed_tx(out, &mut rx, &t);
+            }
+            rx.ev_drain(out);
         }
     }
     // the maximum is re-configured in the middle of a streak of re-uses (lowered, raised, same value)
